@@ -20,11 +20,11 @@ inline std::vector<PlanItem> plan_modelspace(const Args& a, const char* profile)
     auto add = [&](const char* s, int d, bool rich = true, bool raw = true, bool off = false) { PlanItem it; it.shape = s; it.depth = d; it.opts.rich = rich; it.opts.with_raw = raw; it.opts.with_offsets = off; P.push_back(it); };
     if (p == "g" || p == "s") {          // predicates that are cheap per state
         add("S1", T ? 4 : 3); add("S2", T ? 4 : 3); add("S3", 3); add("S4", 3); add("S5", 3);
-        add("S6", 2, T); add("S7", 2, T);
+        add("S6", 2, T); add("S7", 2, T); add("S11", 2);
         if (T) { add("S4r", 2); add("S8", 1); add("S9", 1); add("S10", 1); }
     } else if (p == "m") {               // predicates that are expensive per state (many analyses / many observables per state)
         add("S1", T ? 3 : 2); add("S2", 3); add("S3", T ? 3 : 2); add("S4", T ? 3 : 2); add("S5", T ? 3 : 2);
-        add("S6", 2, T); add("S7", 2, T);
+        add("S6", 2, T); add("S7", 2, T); add("S11", T ? 2 : 1);
         if (T) { add("S8", 1); add("S9", 1); add("S10", 1); }
     } else if (p == "x") {               // two-particle predicates (reference cost O(6 D^4) per tuple and frequency triple)
         add("S1", T ? 3 : 2); add("S2", 3); add("S3", T ? 2 : 1); add("S4", 2);
